@@ -8,9 +8,9 @@ package main
 
 import (
 	"fmt"
-	"hash/fnv"
 	"go/token"
 	"go/types"
+	"hash/fnv"
 	"sort"
 	"strings"
 
